@@ -403,6 +403,8 @@ class Interp:
             if v[0] == "op" and v[1] == "not":
                 return not self.truth(v[2])
             k = sym.kind(v)
+            if k == "obj":
+                return True
             if k == "int" and self._single_cellvar(v) is not None:
                 r = self.decide_cmp("!=", v, 0)
                 if r is not None:
@@ -1825,7 +1827,7 @@ class Interp:
             return _re.compile(*args, **kwargs)
         if d in ("re.fullmatch", "re.match", "re.search"):
             if any(is_sym(a) for a in args):
-                return True if self.choose(("regexmatch", d, args[0], args[1])) else None
+                return sym.var(f"match:{args[0]}", "obj") if self.choose(("regexmatch", d, args[0], args[1])) else None
             m = getattr(_re, d.split(".")[1])(*args, **kwargs)
             return m
         if d == "re.escape":
@@ -1876,6 +1878,11 @@ class Interp:
             return sym.var(d, "any")
         if d == "float":
             return float(*args)
+        if d in ("os.path.normpath", "os.path.join", "os.path.dirname", "os.path.abspath", "os.path.basename"):
+            if any(is_sym(a) for a in args):
+                return sym.op(d.split(".")[-1], *args)
+            import os as _os
+            return getattr(_os.path, d.split(".")[-1])(*args)
         raise Unsupported(f"external call {d}")
 
     def e_ext_value(self, d):
